@@ -99,6 +99,52 @@ func C09(c *Ctx) {
 			r.Check(fromHeight(key) && !fromHead(key), "R09.8", fmt.Sprintf("removeChainDataOnBlock: delete #%d is keyed by the removed block", nd), c.P.Pos(call.Pos()), "key built from the height / the block loaded under it",
 				"an index entry is deleted under a key taken from the chain meta (the head) or from something other than the block being removed: when more than one block is rolled back the entries of the lower blocks stay in the index (a block hash keeps resolving to a height that no longer exists)")
 		}
+		// deletes moved into a helper of the chain ledger that receives the height / the block (deleteBlockIndex)
+		for _, hc := range core.Calls(rm) {
+			g := core.StaticCallee(hc)
+			if g == nil || g == rm || len(g.Blocks) == 0 || core.PkgOf(g) != core.PkgOf(rm) {
+				continue
+			}
+			for _, call := range core.Calls(g) {
+				o := core.CalleeObj(call)
+				if o == nil || o.Name() != "Delete" || !strings.Contains(core.CalleeName(call), "storage.") || len(call.Common().Args) == 0 {
+					continue
+				}
+				nd++
+				key := call.Common().Args[len(call.Common().Args)-1]
+				okKey, badKey := false, fromHead(key)
+				for pi, gp := range g.Params {
+					pp := gp
+					if pi >= len(hc.Common().Args) || !core.Mentions(key, func(w ssa.Value) bool {
+						if w == ssa.Value(pp) {
+							return true
+						}
+						if cc, ok := w.(*ssa.Call); ok {
+							for _, a := range cc.Call.Args {
+								if core.Strip(a) == ssa.Value(pp) {
+									return true
+								}
+							}
+						}
+						return false
+					}) {
+						continue
+					}
+					arg := hc.Common().Args[pi]
+					if strings.HasSuffix(arg.Type().String(), "storage.Batch") || pi == 0 && g.Signature.Recv() != nil {
+						continue
+					}
+					if fromHeight(arg) {
+						okKey = true
+					}
+					if fromHead(arg) {
+						badKey = true
+					}
+				}
+				r.Check(okKey && !badKey, "R09.8", fmt.Sprintf("removeChainDataOnBlock: delete #%d is keyed by the removed block", nd), c.P.Pos(call.Pos()), "key built from the height / the block that "+g.Name()+" receives from removeChainDataOnBlock",
+					"an index entry is deleted under a key taken from the chain meta (the head) or from something other than the block being removed: when more than one block is rolled back the entries of the lower blocks stay in the index (a block hash keeps resolving to a height that no longer exists)")
+			}
+		}
 		r.Floor("R09.8", "deletes in removeChainDataOnBlock", nd, 4)
 	}
 	r.Rule("R09.6", "no stale chain meta: a value read from the old chain meta (height, hash, interchain count) that is stored into the chain meta a function persists / installs (persistChainMeta, UpdateChainMeta) is read after the last update of that field on the path - a copy taken before the removal loop of a rollback misses the loop's subtractions.")
@@ -527,6 +573,41 @@ func heightExpr(fn *ssa.Function, v ssa.Value, d int) string {
 			for _, val := range varValues(fn, recv) {
 				if cl, idx := core.CallOf(val); cl != nil && idx == 0 && core.CalleeObj(cl) != nil && core.CalleeObj(cl).Name() == "GetBlock" {
 					return heightExpr(fn, core.Arg(cl, 0), d+1)
+				}
+			}
+			// the block comes from a helper of the package that returns GetBlock(<its parameter>) (read with retry)
+			for _, val := range varValues(fn, recv) {
+				cl, idx := core.CallOf(val)
+				if cl == nil || idx > 0 {
+					continue
+				}
+				g := core.StaticCallee(cl)
+				if g == nil || len(g.Blocks) == 0 || core.PkgOf(g) != core.PkgOf(fn) {
+					continue
+				}
+				for _, ret := range core.Returns(g) {
+					if len(ret.Results) == 0 {
+						continue
+					}
+					for _, rv := range varValues(g, ret.Results[0]) {
+						if gcl, gidx := core.CallOf(rv); gcl != nil && gidx == 0 && core.CalleeObj(gcl) != nil && core.CalleeObj(gcl).Name() == "GetBlock" {
+							harg := core.Arg(gcl, 0)
+							pi := paramIndex(g, harg)
+							if pi < 0 {
+								// the parameter captured by the retry closure lives in a local slot
+								if al, isAl := core.VarIdentity(harg).(*ssa.Alloc); isAl {
+									for _, sv := range core.StoresTo(al) {
+										if k := paramIndex(g, sv); k >= 0 {
+											pi = k
+										}
+									}
+								}
+							}
+							if pi >= 0 && pi < len(cl.Call.Args) {
+								return heightExpr(fn, cl.Call.Args[pi], d+1)
+							}
+						}
+					}
 				}
 			}
 			for _, val := range varValues(fn, recv) {
